@@ -929,6 +929,35 @@ int EGLPNUM_TYPENAME_ILLsimplex (
 		EGLPNUM_TYPENAME_ILLprice_free_pricing_info (pinf);
 	}
 
+	/* the bounds may have been edited since the basis was stored or last used:
+	 * a non-basic variable has to sit at a bound it actually has */
+	if (lp->vstat != 0 && lp->vtype != 0)
+	{
+		int k;
+
+		for (k = 0; k < lp->ncols; k++)
+		{
+			if (lp->vstat[k] == STAT_BASIC)
+				continue;
+			switch (lp->vtype[k])
+			{
+			case VFREE:
+				lp->vstat[k] = STAT_ZERO;
+				break;
+			case VUPPER:
+				lp->vstat[k] = STAT_UPPER;
+				break;
+			case VLOWER:
+				lp->vstat[k] = STAT_LOWER;
+				break;
+			default:									/* both bounds finite */
+				if (lp->vstat[k] == STAT_ZERO)
+					lp->vstat[k] = STAT_LOWER;
+				break;
+			}
+		}
+	}
+
 	if (lp->fbasisid != lp->basisid)
 	{
 		rval = EGLPNUM_TYPENAME_ILLbasis_factor (lp, &singular);
